@@ -173,10 +173,19 @@ func concStressChild(args []string) int {
 	var wg sync.WaitGroup
 	// a file every reader goroutine reads
 	var file bytes.Buffer
+	var fileInputs []any
 	{
 		enc, _ := avro.NewEncoderFor[RRec](&file, avro.CompressionSnappy, 100)
 		for i := 0; i < 30; i++ {
-			r := RRec{ID: int64(i), Name: fmt.Sprint("n", i)}
+			// every third record takes nothing from its resource bank (no string, no pointer, no slice)
+			r := RRec{ID: int64(i)}
+			if i%3 != 0 {
+				r.Name = fmt.Sprint("name-of-record-", i)
+				r.Tags = []string{fmt.Sprint("t", i)}
+				v := int64(i)
+				r.Opt = &v
+			}
+			fileInputs = append(fileInputs, projectValue(reflect.ValueOf(r)))
 			enc.Encode(&r)
 		}
 		enc.Flush()
@@ -224,24 +233,39 @@ func concStressChild(args []string) int {
 					o, _ := safeCall(func() error { return avrotime.StringCodec{}.Read(r, unsafe.Pointer(&back)) })
 					r.ExtractResourceBank().Close()
 					results[g] = append(results[g], stressRecord{Op: "conc_time", G: g, Seq: int64(k), S: byteList([]byte(s)), T: timeNode(back), Out: o})
-				case 5: // read a whole file
-					n := 0
-					sum := int64(0)
+				case 5: // read a whole file, retain every record, look at them after the read, then let go of the banks
+					var kept []RRec
+					var mine []*avro.ResourceBank
 					err := avro.ReadFile(bytes.NewReader(file.Bytes()), RRec{}, func(val unsafe.Pointer, rb *avro.ResourceBank) error {
-						n++
-						sum += (*RRec)(val).ID
-						select {
-						case banks <- rb:
-						default:
-							rb.Close()
+						kept = append(kept, *(*RRec)(val))
+						if len(kept)%3 == 1 {
+							rb.Close() // the application is done with this record's bank at once
+						} else {
+							mine = append(mine, rb)
 						}
 						return nil
 					})
 					o := "ok"
-					if err != nil || sum != 435 {
+					if err != nil {
 						o = "err"
 					}
-					results[g] = append(results[g], stressRecord{Op: "conc_file", G: g, Seq: int64(k), N: n, Out: o})
+					var delivered []any
+					for i := range kept {
+						if i%3 == 0 {
+							// its bank is closed; the record holds nothing from it
+							delivered = append(delivered, safeProject(reflect.ValueOf(RRec{ID: kept[i].ID, F: kept[i].F})))
+						} else {
+							delivered = append(delivered, safeProject(reflect.ValueOf(kept[i])))
+						}
+					}
+					results[g] = append(results[g], stressRecord{Op: "conc_file", G: g, Seq: int64(k), N: len(kept), Out: o, Value: node{"k": "list", "c": delivered}})
+					for _, b := range mine {
+						select {
+						case banks <- b:
+						default:
+							b.Close()
+						}
+					}
 				case 6: // close banks obtained on other goroutines
 					for i := 0; i < 8; i++ {
 						select {
@@ -262,7 +286,7 @@ func concStressChild(args []string) int {
 	}
 	defer f.Close()
 	enc := json.NewEncoder(f)
-	enc.Encode(map[string]any{"op": "conc_schema", "schemaText": string(schemaJSON)})
+	enc.Encode(map[string]any{"op": "conc_schema", "schemaText": string(schemaJSON), "fileInputs": fileInputs})
 	for _, s := range sects {
 		enc.Encode(s)
 	}
@@ -441,12 +465,14 @@ func driveC12(c *driverCtx) error {
 			continue
 		}
 		var schemaNode node
+		var fileInputs any
 		// section events in sequence-number order, one event
 		var sects []any
 		for _, e := range events {
 			switch e["op"] {
 			case "conc_schema":
 				schemaNode, _ = schemaNodeFromJSON([]byte(e["schemaText"].(string)))
+				fileInputs = e["fileInputs"]
 			case "sect":
 				sects = append(sects, map[string]any{"seq": e["seq"], "sec": e["sec"], "ph": e["ph"]})
 			}
@@ -460,7 +486,10 @@ func driveC12(c *driverCtx) error {
 			case "conc_rt":
 				e["schema"] = schemaNode
 				c.rec.Emit(key, e)
-			case "conc_time", "conc_file":
+			case "conc_time":
+				c.rec.Emit(key, e)
+			case "conc_file":
+				e["inputs"] = fileInputs
 				c.rec.Emit(key, e)
 			}
 		}
